@@ -63,6 +63,7 @@ private: InBuf(const InBuf &); InBuf &operator=(const InBuf &);
 // Output buffer with canaries on both sides; body pre-filled with a known pattern.
 struct OutBuf {
     uint8_t *mem; uint8_t *p; size_t n; unsigned align;
+    bool tight; size_t maplen;      // tight: the body ends exactly where accessible memory ends (no trailing canary)
     enum { GUARD = 192 };   // wide enough to contain the overruns one expects (a block, a tag, a state)
     explicit OutBuf(size_t n, unsigned align = 0);
     ~OutBuf();
